@@ -146,6 +146,25 @@ func (g *ggen) mapping(depth int) *doc.Node {
 					g.g.Feat["merge:sequence"]++
 				}
 			default:
+				if g.o.Cycles && g.r.IntN(3) == 0 {
+					// a merge value that is a sequence containing (an alias to) itself,
+					// directly or through a nested sequence: a merge cycle without any mapping on it
+					s := doc.L()
+					s.Seq = []*doc.Node{}
+					if b := pick(); b != nil && g.r.IntN(2) == 0 {
+						s.Seq = append(s.Seq, b)
+					}
+					if g.r.IntN(2) == 0 {
+						s.Seq = append(s.Seq, s)
+					} else {
+						inner := doc.L(s)
+						s.Seq = append(s.Seq, inner)
+					}
+					src = s
+					g.g.MergeBack++
+					g.g.Feat["back-edge:merge-sequence"]++
+					break
+				}
 				// inline merge mapping (may itself contain merges)
 				src = g.mapping(depth + 1)
 				g.g.Feat["merge:inline"]++
